@@ -287,6 +287,8 @@ def verify_function(info: ContractInfo) -> FunctionResult:
             res.paths += 1
             where = f"{info.relpath}:{fnode.lineno}"
             env_in = dict(entry.env)
+            if "old_self" in olds:
+                env_in["self"] = olds["old_self"]  # parameters at ENTRY: a `self` whose fields some path assigns is read through its entry snapshot
             cs = State(dict(env_in), [], s2.facts)
             extra = dict(olds)
             # clauses see parameters at entry, `self` after the call, result
